@@ -120,9 +120,21 @@ def build(nthreads, nsends, reentrant):
     return conn, a, mon
 
 
-def sender(conn, t, n):
+BIG = 10 ** 5000      # passes dumpable(), cannot be encoded: the send fails - in the thread that made it, and only there
+
+
+def sender(conn, t, n, bad=False):
+    if bad:
+        try:
+            conn._send(consts.MSG_REQUEST, 100 * t + 99, (consts.HANDLE_PING, (consts.LABEL_VALUE, (BIG,))))
+            REFUSED.append((t, "accepted"))
+        except ValueError:
+            REFUSED.append((t, "refused"))
     for i in range(n):
         conn._send(consts.MSG_REQUEST, 100 * t + i, ("tok", t, i))
+
+
+REFUSED = []
 
 
 WATCH = None
@@ -133,9 +145,10 @@ def install_watch(opcode=False):
     trace.watch(fns, opcode=[Connection._send] if opcode else ())
 
 
-def make_run(nthreads, nsends, reentrant):
+def make_run(nthreads, nsends, reentrant, bad=False):
     def run(prefix, want_state, cut_fn):
         gc.disable()
+        del REFUSED[:]
         conn, stream, mon = build(nthreads, nsends, reentrant)
         roots = [conn, stream, mon]
 
@@ -149,7 +162,7 @@ def make_run(nthreads, nsends, reentrant):
         def main():
             ts = []
             for t in range(nthreads):
-                th = S.SimThread(target=sender, args=(conn, t, nsends), name="sender%d" % t)
+                th = S.SimThread(target=sender, args=(conn, t, nsends, bad and t == nthreads - 1), name="sender%d" % t)
                 th.start()
                 ts.append(th)
             for th in ts:
@@ -167,6 +180,8 @@ def make_run(nthreads, nsends, reentrant):
                 if t.exc is not None:
                     viol.append(("sender-raised", "%s raised %r" % (t.name, t.exc)))
             viol.extend(mon.final(len(conn._send_queue)))
+            if bad and REFUSED != [(nthreads - 1, "refused")]:
+                viol.append(("unencodable-message-not-refused-in-its-own-thread", repr(REFUSED)))
         else:
             viol.extend(mon.bad)
         ok = (sch.outcome, tuple(sorted(mon.delivered.items())), mon.dels, len(conn._send_queue))
@@ -186,6 +201,7 @@ CONFIGS = {
         ("2x2+reentrant", 2, 2, True, None, False),
         ("3x1/pb2", 3, 1, False, 2, False),
         ("3x1+reentrant/pb2", 3, 1, True, 2, False),
+        ("2x1+unencodable", 2, 1, False, None, False),
     ],
     "thorough": [
         ("2x1", 2, 1, False, None, False),
@@ -198,6 +214,9 @@ CONFIGS = {
         ("3x2/pb2", 3, 2, False, 2, False),
         ("3x1+reentrant/pb3", 3, 1, True, 3, False),
         ("3x2+reentrant/pb2", 3, 2, True, 2, False),
+        ("2x1+unencodable", 2, 1, False, None, False),
+        ("2x2+unencodable", 2, 2, False, None, False),
+        ("3x1+unencodable/pb2", 3, 1, False, 2, False),
         ("2x1/opcode", 2, 1, False, None, True),
         ("2x1+reentrant/opcode", 2, 1, True, None, True),
     ],
@@ -208,7 +227,7 @@ def run_config(cfg, seed, max_seconds):
     name, nt, ns, re_, bound, opcode = cfg
     env.silence_unraisable()
     install_watch(opcode)
-    ex = explore.Explorer(make_run(nt, ns, re_), bound=bound, seed=seed, max_seconds=max_seconds)
+    ex = explore.Explorer(make_run(nt, ns, re_, "+unencodable" in name), bound=bound, seed=seed, max_seconds=max_seconds)
     ex.explore()
     gc.enable()
     return name, ex.stats, ex.samples, ex.violations
@@ -222,7 +241,7 @@ def replay(rep):
     install_watch(opcode)
     outs = []
     for _ in range(2):
-        sch, obs = make_run(nt, ns, re_)(rep["choices"], False, None)
+        sch, obs = make_run(nt, ns, re_, "+unencodable" in name)(rep["choices"], False, None)
         outs.append((sch.outcome, obs["violations"], obs["outcome_key"]))
     if outs[0] != outs[1]:
         print("REPLAY-DIVERGENCE", outs)
